@@ -110,6 +110,10 @@ struct CNode {
     h: iox2_node_h,
 }
 
+pub unsafe fn c_node_pub(d: &Dom) -> iox2_node_h {
+    c_node(d).h
+}
+
 unsafe fn c_node(d: &Dom) -> CNode {
     let mut cfg: iox2_config_h = core::ptr::null_mut();
     assert_eq!(iox2_config_default(core::ptr::null_mut(), &mut cfg), IOX2_OK);
